@@ -390,11 +390,24 @@ func c18Reload(p *core.Program, r *core.Report) {
 			continue
 		}
 		ok = true
-		if pa.HasArg("COND", "conf.configObserver!=nil=true") {
+		hasObs, noObs := false, false
+		for _, e := range pa {
+			if e.Kind == "COND" && strings.Contains(e.Arg, "configObserver") {
+				// `obs != nil` taken, or `obs == nil` not taken
+				if strings.HasSuffix(e.Arg, "!=nil=true") || strings.HasSuffix(e.Arg, "==nil=false") {
+					hasObs = true
+				} else {
+					noObs = true
+				}
+			}
+		}
+		if hasObs {
 			ni := pa.Index("NOTIFY")
 			if ni < 0 || ni < ai {
 				probs = append(probs, "a change is applied but the registered observer is not notified afterwards")
 			}
+		} else if !noObs && !pa.Has("PANIC") {
+			probs = append(probs, "after applying a change reload can return without even looking at the observer (an early way out between apply and notify): observers miss the change")
 		}
 		if pi := pa.Index("PARSE"); pi < 0 || pi > ai {
 			probs = append(probs, "the applied values do not come from parsing the file")
